@@ -322,6 +322,8 @@ fn huge_clone_case(c: &mut Ctx, rng: &mut Rng) {
 }
 
 pub fn run(c: &mut Ctx) {
+    // this property rebuilds every state many times: very large sparse states are capped at 2^24 buckets
+    crate::states::set_huge_max_lg(24);
     c.run_scenarios(|c, idx, rng| {
         if crate::util::mix(idx ^ 0xc11) % 8000 == 0 && !crate::util::slow_lane() && c.lane != "asan" {
             huge_clone_case(c, rng);
